@@ -435,3 +435,43 @@ Proof.
   intros fo re fmt_v. eexists. eexists. eexists.
   split; [vm_compute; reflexivity|]. split; [reflexivity|]. repeat split; vm_compute; reflexivity.
 Qed.
+
+(* the same for EVERY expression of an accepted statement: the select fields (checked trees, as
+   ValidateFields leaves them), the WHERE tree, the key / value expressions of PUT, the keys of
+   REMOVE, DELETE's WHERE ([ParseCheck.cstmt_exprs]) *)
+Theorem accepted_exprs_rt_ok :
+  forall (fo : Value.fops) (re : string -> string -> Value.res bool) (fmt_v : Value.F fo -> string)
+         q s c agg,
+  ParseCheck.parse_check fo re fmt_v q = ParseCheck.PCOk s c agg ->
+  Forall (fun e => rt_ok e = true) (ParseCheck.cstmt_exprs c).
+Proof. exact AcceptedShapeProofs.accepted_exprs_rt_ok_thm. Qed.
+Print Assumptions accepted_exprs_rt_ok.
+
+Theorem accepted_exprs_reparse :
+  forall (fo : Value.fops) (re : string -> string -> Value.res bool) (fmt_v : Value.F fo -> string)
+         q s c agg e,
+  ParseCheck.parse_check fo re fmt_v q = ParseCheck.PCOk s c agg ->
+  In e (ParseCheck.cstmt_exprs c) -> txt_ok e = true ->
+  exists e', parse_expr_top (lex (render_text e)) = POk e' [] /\ erase e' = erase e.
+Proof.
+  intros fo re fmt_v q s c agg e H Hin Ht. apply print_parse_text; [|exact Ht].
+  pose proof (accepted_exprs_rt_ok fo re fmt_v q s c agg H) as Hall.
+  rewrite Forall_forall in Hall. exact (Hall e Hin).
+Qed.
+Print Assumptions accepted_exprs_reparse.
+
+Example accepted_exprs_nonvacuous :
+  forall (fo : Value.fops) (re : string -> string -> Value.res bool) (fmt_v : Value.F fo -> string),
+  (exists s c,
+    ParseCheck.parse_check fo re fmt_v
+      "select key as k, upper(k) + '!' as u, !(k in ('a', `u`)) where u ^= 'A'" = ParseCheck.PCOk s c false /\
+    map render_text (ParseCheck.cstmt_exprs c)
+      = ["KEY"; "(upper(`k`) + '!')"; "!((`k` in ('a', `u`)))"; "(`u` ^= 'A')"] /\
+    forallb txt_ok (ParseCheck.cstmt_exprs c) = true) /\
+  (exists s c,
+    ParseCheck.parse_check fo re fmt_v "put ('k' + '1', upper('v')), ('k2', 'w')" = ParseCheck.PCOk s c false /\
+    length (ParseCheck.cstmt_exprs c) = 4).
+Proof.
+  intros fo re fmt_v. split; eexists; eexists; (split; [vm_compute; reflexivity|]);
+    [split|]; vm_compute; reflexivity.
+Qed.
